@@ -114,6 +114,28 @@ func c12CmdsNotRun(c *Check, a *Anchors) {
 		c.Decide(st.Has("false:field:Executor.Summary"), "cmds-not-run-when-dry", ordinal(ord, l+"@"+fnDisplay(run)), call.Pos(), "after the --summary early return",
 			"Run starts a task without having passed the --summary early return: --summary would execute tasks; must-facts: "+st.String())
 	}
+	// … also when the start is further down: any function of the package that Run calls and from which RunTask is
+	// reachable (the watch loop) starts tasks
+	for _, call := range callsIn(run, false) {
+		if _, labelled := fr.Labels[call]; labelled && (fr.Labels[call] == "runtask" || fr.Labels[call] == "go") {
+			continue
+		}
+		fn, ok := callee(run.Info(), call).(*types.Func)
+		if !ok {
+			continue
+		}
+		d := c.P.DeclOf(fn)
+		if d == nil || d == run || d == a.RunTask || d.Pkg != run.Pkg || !c.P.ReachableFrom([]*FuncBody{d}, nil)[a.RunTask] {
+			continue
+		}
+		st, seen := fr.At[call]
+		if !seen {
+			continue
+		}
+		m++
+		c.Decide(st.Has("false:field:Executor.Summary"), "cmds-not-run-when-dry", ordinal(ord, "starts-tasks:"+fn.Name()+"@"+fnDisplay(run)), call.Pos(), "after the --summary early return",
+			"Run calls "+fn.Name()+", which starts tasks, without having passed the --summary early return: --summary (with a watch task or --watch) would execute commands and write fingerprints; must-facts: "+st.String())
+	}
 	c.Floor("cmds-not-run-when-dry", n+m, 3)
 }
 
